@@ -276,7 +276,7 @@ fn worker_body<P: Prop>(a: WorkerArgs) {
   let mut runner = TestRunner::new(config);
   let strat = P::strategy(a.tier, &known);
   let stride = (per / 4).max(1);
-  let mut reported: HashSet<String> = HashSet::new();
+  let reported: RefCell<HashSet<String>> = RefCell::new(HashSet::new());
   for i in 0..per {
     let tree = match strat.new_tree(&mut runner) {
       Ok(t) => t,
@@ -298,6 +298,8 @@ fn worker_body<P: Prop>(a: WorkerArgs) {
       emit(&mut *out.borrow_mut(), &verdict_json(i as u64, ph, &v, &known, d), false);
       match &v.status {
         Status::Fail { sig, msg } if known.find(sig).is_none() => {
+          // a signature this worker has already shrunk and reported is not shrunk again (the campaign continues behind it)
+          if is_first && reported.borrow().contains(sig) { return Ok(()); }
           *last_fail.borrow_mut() = Some((sig.clone(), msg.clone()));
           Err(TestCaseError::fail(sig.clone()))
         }
@@ -311,10 +313,10 @@ fn worker_body<P: Prop>(a: WorkerArgs) {
         Status::Fail { sig, msg } => (sig.clone(), msg.clone()),
         _ => last_fail.borrow().clone().unwrap_or(("?".into(), "minimal case did not fail on re-run".into())),
       };
-      if reported.insert(sig.clone()) {
+      if reported.borrow_mut().insert(sig.clone()) {
         emit(&mut *out.borrow_mut(), &json!({"t":"F","case":serde_json::to_value(&minimal).unwrap(),"sig":sig,"msg":msg,"d":P::describe(&minimal)}), true);
       }
-      if reported.len() >= 3 { break; }
+      if reported.borrow().len() >= 3 { break; }
     }
   }
   emit(&mut *out.borrow_mut(), &json!({"t":"D"}), true);
@@ -588,6 +590,7 @@ pub fn supervisor_main<P: Prop>(o: RunOpts) -> i32 {
       "known_pins_reproduced": agg.pins_ok,
       "known_pins_not_reproduced": agg.pins_gone,
       "timeouts": to_list.len(),
+      "timeout_samples": to_list.iter().filter_map(|c| serde_json::from_value::<P::Case>(c["case"].clone()).ok()).take(8).map(|c| P::describe(&c)).collect::<Vec<_>>(),
       "crashes": crash_list.len(),
       "worker_respawns": respawns,
       "replays_rerun": agg.replays_rerun,
